@@ -312,6 +312,10 @@ func newWorldRec(t *rapid.T, nWallets int, gap uint32, wrap func(mwdb.DB) mwdb.D
 	return newWorld(t, nWallets, gap, wrap)
 }
 
+// observeContext, when set, describes the run that is being observed (fault position, log) for
+// failures inside observe itself.
+var observeContext func() string
+
 // observe renders everything a user can see of the wallet instance, canonically ordered.
 func observe(t *rapid.T, env *sim.Env) []string {
 	var out []string
@@ -322,7 +326,11 @@ func observe(t *rapid.T, env *sim.Env) []string {
 	out = append(out, fmt.Sprintf("synced=%d", synced))
 	wl, err := env.W.Wallets()
 	if err != nil {
-		t.Fatalf("Wallets: %v", err)
+		ctx := ""
+		if observeContext != nil {
+			ctx = observeContext()
+		}
+		t.Fatalf("the wallet list cannot be read any more - Wallets: %v%s", err, ctx)
 	}
 	sort.Slice(wl, func(i, j int) bool { return wl[i].WalletID < wl[j].WalletID })
 	for _, s := range wl {
@@ -503,7 +511,11 @@ func (r *replayer) taskPending() bool {
 		}
 		return false
 	}
-	return false
+	// the wallet list cannot be read (e.g. a failed removal step left its keystore out of the cache
+	// until the step is retried). The running service does not consult the list either: its follower
+	// serves the worker whenever the worker asks. So: is the worker asking (or busy)?
+	ws, _ := guard.WaitWorker(r.env.HandlerPtr(), 5*time.Second)
+	return ws == "suspend" || ws == "resume" || ws == "busy"
 }
 
 // step executes one step; user operations that fail are repeated (bounded), which is what a user
@@ -836,8 +848,13 @@ func propC18(t *rapid.T) {
 				r.step(t, s)
 			}
 			ctl.FailAt = 0
+			observeContext = func() string {
+				return fmt.Sprintf("\n  after a storage fault at database call %d of %d (kinds failed: %v, repeat %d)\n  failed calls came from:\n    %s\n  faulted run log:\n    %s\n  history:\n  %s",
+					k, total, ctl.Injected, repeat, strings.Join(ctl.Stacks, "\n    "), strings.Join(r.log, "\n    "), twin.journalTail(30))
+			}
 			r.converge(t)
 			got := comparable(observe(t, r.env), script)
+			observeContext = nil
 			if strings.Join(got, "\n") != strings.Join(want, "\n") {
 				t.Fatalf("storage fault at database call %d of %d (kinds failed: %v, repeat %d): final state differs from the fault-free run\n%s  failed calls came from:\n    %s\n  faulted run log:\n    %s\n  history:\n  %s",
 					k, total, ctl.Injected, repeat, diffObs(want, got), strings.Join(ctl.Stacks, "\n    "), strings.Join(r.log, "\n    "), twin.journalTail(30))
